@@ -64,10 +64,8 @@ class IntProperty(PropertyProtocol):
                 converted = float(converted)
             except ValueError:
                 return PropertyError(f"Invalid int value: {converted}")
-        if isinstance(converted, float):
-            as_int = int(converted)
-            if converted == as_int:
-                converted = as_int
+        if isinstance(converted, float) and converted.is_integer():
+            converted = int(converted)
         if isinstance(converted, int) and not isinstance(converted, bool):
             return Value(python_code=str(converted), raw_value=value)
         return PropertyError(f"Invalid int value: {value}")
